@@ -138,6 +138,58 @@ fn same_up_to_noops(orig: &[(u8, Option<u64>)], dec: &[(u8, Option<u64>)]) -> bo
     j == orig.len()
 }
 
+/// Reference batcher written from docs/src/design/programs.md ("Span block"): operations fill a
+/// group (9 per group; an operation with an immediate never in the ninth place, so that a NOOP can
+/// follow it), the immediate of an operation goes to the next unused group of the same batch, a
+/// new group takes the next unused group, and a new batch is started only when the operation (and
+/// its immediate) does not fit into the current one ("breaks the sequence into batches": 8 pushes
+/// give a first batch with 7 PUSH + NOOP and 7 immediates, 72 operations without immediates fit
+/// one batch). Returns the group values, 8 per batch. NOOP is opcode 0, so padding is invisible.
+pub fn reference_groups(ops: &[Operation]) -> Vec<Felt> {
+    let mut out: Vec<Felt> = vec![];
+    let mut groups = [0u64; 8];
+    let mut imm = [None::<u64>; 8];
+    let mut cur = 0usize; // index of the group receiving operations
+    let mut next_free = 1usize; // next unused group of the batch
+    let mut n_in_group = 0usize;
+    let flush = |groups: &mut [u64; 8], imm: &mut [Option<u64>; 8], out: &mut Vec<Felt>| {
+        for g in 0..8 {
+            out.push(match imm[g] {
+                Some(v) => Felt::new(v),
+                None => Felt::new(groups[g]),
+            });
+        }
+        *groups = [0u64; 8];
+        *imm = [None; 8];
+    };
+    for op in ops {
+        let has_imm = op.imm_value().is_some();
+        let need = if has_imm { 1 } else { 0 };
+        let fits_group = if has_imm { n_in_group <= 7 } else { n_in_group <= 8 };
+        if !(fits_group && next_free + need <= 8) {
+            // a new group in this batch, if it and the immediate still have room; else a new batch
+            if n_in_group > 0 && !fits_group && next_free + 1 + need <= 8 {
+                cur = next_free;
+                next_free += 1;
+                n_in_group = 0;
+            } else {
+                flush(&mut groups, &mut imm, &mut out);
+                cur = 0;
+                next_free = 1;
+                n_in_group = 0;
+            }
+        }
+        groups[cur] |= (op.op_code() as u64) << (7 * n_in_group);
+        n_in_group += 1;
+        if let Some(v) = op.imm_value() {
+            imm[next_free] = Some(v.as_int());
+            next_free += 1;
+        }
+    }
+    flush(&mut groups, &mut imm, &mut out);
+    out
+}
+
 pub fn check_ops(ops: &[Operation]) -> Out {
     let desc = || json!({"ops": ops.iter().map(|o| format!("{}", o)).collect::<Vec<_>>()});
     let span = vm::catch(|| vm_core::code_blocks::Span::new(ops.to_vec())).map_err(|p| Viol::new("C08:span-panic", p, desc()))?;
@@ -145,6 +197,24 @@ pub fn check_ops(ops: &[Operation]) -> Out {
     let orig: Vec<(u8, Option<u64>)> = ops.iter().map(|o| (o.op_code(), o.imm_value().map(|f| f.as_int()))).collect();
     if !same_up_to_noops(&orig, &decoded) {
         return Err(Viol::new("C08:decode-back", format!("groups decode to {:?}", decoded), desc()));
+    }
+    // the batching is the one the documents describe, not merely one that obeys the rules
+    let reference = reference_groups(ops);
+    if reference != groups {
+        let first = reference.iter().zip(groups.iter()).position(|(a, b)| a != b).unwrap_or(reference.len().min(groups.len()));
+        return Err(Viol::new(
+            "C08:batching-differs-from-spec",
+            format!(
+                "{} groups in {} batches, the reference batcher gives {} groups; first difference at group {} (batch {}, group {})",
+                groups.len(),
+                groups.len() / 8,
+                reference.len(),
+                first,
+                first / 8,
+                first % 8
+            ),
+            desc(),
+        ));
     }
     let want = Rpo256::hash_elements(&groups);
     if span.hash() != want {
